@@ -20,6 +20,13 @@ def pc_line(rng, hist, ini):
             toks.append("S.%s.0.%04x" % (h[1], n))
         elif h[0] == "t":
             toks.append("E.%s" % h[1])
+        elif h[0] == "c":
+            # a housekeeping second in which this end's rotation cycle is due (it emits a rotation message)
+            toks += ["C.%s.119" % h[1], "E.%s" % h[1]]
+        elif h[0] == "r":
+            # deliver to dst the latest rotation message of the other end
+            dst = int(h[1])
+            toks.append("L.%d.%d.r.0" % (dst, 3 - dst))
         else:
             # d<dst><k>: deliver to dst the k-th last data datagram sealed by the other end
             dst = int(h[1])
@@ -126,6 +133,42 @@ class C03(Property):
                     hist.append("d%s%d" % (e, rng.choice([0, 0, 1, 2, 3])))
                 else:
                     hist.append("t" + e)
+            out.append(pc_line(rng, hist, ini))
+        # seconds in which a rotation message is due (PeerCrypto::every_second takes another path, with early returns): the window
+        # must move in those seconds too.  (a) rotation messages lost - the sealing keys never change; (b) delivered at once, with
+        # every datagram first delivered in sealing order (for such histories the sealing order is the counter order per key and
+        # the history-only reference is exact across the key switch); at most 2 cycles per line: with the proposal that ends the
+        # handshake that is at most key ids 1..3, so no key slot (id mod 4) is re-keyed under a datagram still being replayed
+        for ini in (1, 2):
+            for dst in (1, 2):
+                src = 3 - dst
+                for k1 in range(0, 3):
+                    for k2 in range(0, 3):
+                        for lost in (True, False):
+                            rot = ["c%d" % dst] + ([] if lost else ["r%d" % src, "r%d" % dst])
+                            hist = ["s%d" % src, "d%d0" % dst] + ["t%d" % dst] * k1 + rot + ["t%d" % dst] * k2 + ["d%d0" % dst]
+                            out.append(pc_line(rng, hist, ini))
+                            hist = ["s%d" % src, "d%d0" % dst] + ["t%d" % dst] * k1 + ["c%d" % src] + ([] if lost else ["r%d" % dst, "r%d" % src]) + ["t%d" % dst] * k2 + ["d%d0" % dst]
+                            out.append(pc_line(rng, hist, ini))
+        for _ in range(1500 if thorough else 200):
+            ini = rng.choice([1, 2])
+            lost = rng.random() < 0.4
+            hist, cycles = [], 0
+            for _ in range(rng.choice([8, 16, 30])):
+                r = rng.random()
+                e = rng.choice("12")
+                o = "21"[int(e) - 1]
+                if r < 0.3:
+                    hist += ["s" + e, "d%s0" % o]            # sealed and delivered at once: first deliveries in sealing order
+                elif r < 0.55:
+                    hist.append("d%s%d" % (e, rng.choice([0, 0, 1, 2, 3])))
+                elif r < 0.85 or cycles >= 2:
+                    hist.append("t" + e)
+                else:
+                    cycles += 1
+                    hist.append("c" + e)
+                    if not lost:
+                        hist += ["r" + o, "r" + e]
             out.append(pc_line(rng, hist, ini))
         for ini in (1, 2):
             for dst in (1, 2):
